@@ -9,7 +9,7 @@ AGENT_RW = {'imports': {
 
 
 ENGINES = [
-    {'name': 'mc', 'path': 'mc tools/mcrewrite harness/agentmc', 'serves_properties': ['C10'],
+    {'name': 'mc', 'path': 'mc tools/mcrewrite harness/agentmc', 'serves_properties': ['C10', 'C11'],
      'kind_free_text': 'hand-written controlled scheduler + stateless/state-pruned DFS explorer for Go channel code, bound to the real source by an AST rewriter applied through go build -overlay'},
     {'name': 'seqx', 'path': 'harness/c01 harness/x', 'serves_properties': ['C01'],
      'kind_free_text': 'explicit-state BFS over operation sequences on the real store.Dir with a reference model (hand-written, Go)'},
@@ -27,6 +27,14 @@ CHECKS = {
                 'near-miss passwords are enumerated exhaustively per base password and parameter set.',
         'note': 'Small alphabets (2 users, <=5 passwords, 3 cheap parameter sets) stand for all; sequential execution only; the reference model is the property statement.',
         'parts': [GoBin('seqx', 'harness/c01')],
+    },
+    'C11': {
+        'level': 'model_checking',
+        'engine': 'mc',
+        'technique': 'exhaustive schedule exploration of the rewritten agent (state-pruned full reachability + deviation-bounded DFS); per-execution exhaustive linearizability search against a sequential store model incl. final-store read-out',
+        'text': 'Every interleaving of 2-4 clients x 1-2 operations on overlapping users (Store interface, SASL callback, LDAP bind; upgrades off and local) is executed on the real dispatcher; each complete history must have a sequential order consistent with real time that explains every response and the final store directory.',
+        'note': 'Histories of at most 8 operations; channel-level scheduling points; sequential reference model = property statement; data races left to the -race twin.',
+        'parts': [McPart('mc', 'C11', 'cmd/whawty-auth', ['harness/agentmc'], AGENT_RW)],
     },
     'C10': {
         'level': 'model_checking',
